@@ -30,6 +30,7 @@ def dispatch (line : String) : String :=
       | "hist" => handleHist rest
       | "cycles" => handleCycles args obs
       | "cnt" => handleCnt args obs
+      | "macflush" => handleMacFlush args
       | "cntwin" => handleCnt args obs
       | "cntunw" => handleCnt args obs
       | "cnthammer" => handleHammer args obs
